@@ -219,6 +219,23 @@ func runCrashCheck(t *testing.T, rep *mc.Reporter, check string, oracle func(scn
 			mc.RunScenario(rep, scn, bound, budget, func(ch *mc.Chooser) mc.Result { return exec(scn, ch) })
 		}
 	}
+	if (fam == "" || fam == "rekey") && check != "C09" {
+		// ---- family "rekey": from the first restart on the source reports a new replication id for the same
+		// history (fail-over: the old id is its second id); the start sequence keeps the checkpoint under the
+		// old id until PSYNC is answered, then SetRunId re-keys it; one crash or orderly stop anywhere
+		// (also inside the re-keying start sequence of a later run when two faults are allowed)
+		var rk []crashScenario
+		L, mcr := 2, 1
+		if tier == "thorough" {
+			L, mcr = 3, 2
+		}
+		enumSeqs([]string{"w1", "s1", "t1", "p"}, L, func(seq []string) {
+			for _, cfg := range crashConfigs("") {
+				rk = append(rk, crashScenario{Syms: append([]string{"s0"}, seq...), Cfg: cfg, Max: 1, MaxCrashes: mcr, Stops: true, Rekey: true})
+			}
+		})
+		runFam("rekey", rk, 0)
+	}
 	if fam == "" || fam == "stop" || fam == "kill" || fam == "big" {
 		thorough := tier == "thorough"
 		// ---- family "stop": a fault may also be an orderly stop (context cancelled and source closed between
